@@ -39,9 +39,11 @@ MANIFEST_TEXT["C09"] = {
 PROPS["C20"] = {
     "rule": "go1.26.8 testing/synctest: the real trust.RetryHTTPSGetter.Get in a virtual-time bubble with a scripted wrapped getter; exhaustive grid Timeout{0,1s,7s,8s,2m} x Max{1s,3s,4s,30s,5m} x call duration{0,1s,Max} x {fail for ever, k failures then success for every k = 0..attempts+1}, Max{0,-1s} x the same timeouts x duration{0,1s,250ms} (F13), seeded random scripts (thorough: 30000, plus 6 real-time millisecond runs outside the bubble); the exact virtual timestamps of every call and of the return are compared with the model's trace; a case is non-trivial when at least one retry happened; distinct = distinct (Timeout, Max, script)",
     "prebuild": [
-        {"cwd": "{root}/harness-synctest", "cmd": ["go1.26.8", "mod", "edit", "-replace", "github.com/google/go-tdx-guest={repo}"]},
-        {"cwd": "{root}/harness-synctest", "copy": [["{repo}/go.sum", "{root}/harness-synctest/go.sum"]],
-         "cmd": ["go1.26.8", "test", "-c", "-o", "{bin}/tdxsynctest", "."]},
+        # a temporary modfile carries the replace directive (the tracked go.mod is never edited)
+        {"cwd": "{root}/harness-synctest", "copy": [["{root}/harness-synctest/go.mod", "{root}/.cache/synctest.mod"], ["{repo}/go.sum", "{root}/.cache/synctest.sum"]],
+         "cmd": ["go1.26.8", "mod", "edit", "-modfile={root}/.cache/synctest.mod", "-replace", "github.com/google/go-tdx-guest={repo}"]},
+        {"cwd": "{root}/harness-synctest",
+         "cmd": ["go1.26.8", "test", "-c", "-modfile={root}/.cache/synctest.mod", "-o", "{bin}/tdxsynctest", "."]},
     ],
     "driver_cmd": ["env", "TDX_OUT={out}", "TDX_TIER={tier}", "TDX_SEED={seed}", "{bin}/tdxsynctest", "-test.run", "^TestC20$", "-test.count=1", "-test.timeout=20m"],
     "trusted_base": ["testing/synctest (go1.26.8) virtual clock and its scheduling of simultaneous timers; OS timers are exercised only by the 6 millisecond-scale real-time runs of the thorough tier",
